@@ -42,7 +42,7 @@ func isKnownPure(f *types.Func) bool {
 	case "errors.New", "fmt.Errorf", "fmt.Sprintf", "fmt.Sprint", "fmt.Sprintln", "bytes.Equal", "bytes.Compare", "time.Now", "time.Time.UnixNano",
 		"time.Time.Unix", "math/big.NewInt", "strings.HasPrefix", "strings.ToLower", "strings.ToUpper", "strconv.Itoa", "strconv.FormatUint",
 		"strconv.FormatInt", "bytes.HasPrefix", "time.Since", "time.Time.Sub", "time.Time.Before", "time.Time.After", "time.Duration.Seconds",
-		"errors.Is", "strings.Contains", "strings.TrimSpace", "fmt.Println", "fmt.Printf", "fmt.Print", "strconv.Quote",
+		"errors.Is", "time.Unix", "strings.Contains", "strings.TrimSpace", "fmt.Println", "fmt.Printf", "fmt.Print", "strconv.Quote",
 		"encoding/json.Unmarshal", "encoding/json.Marshal":
 		return true
 	}
@@ -104,7 +104,7 @@ func (fr *Frame) knownPure(s *State, f *types.Func, recv *Val, args []*Val) ([]*
 		return []*Val{{T: boolT, S: fmt.Sprintf("(seq.prefixof %s %s)", args[1].S, args[0].S)}}, true
 	case "strings.Contains":
 		return []*Val{{T: boolT, S: fmt.Sprintf("(seq.contains %s %s)", args[0].S, args[1].S)}}, true
-	case "time.Now", "time.Time.UnixNano", "time.Time.Unix", "time.Since", "time.Time.Sub", "time.Time.Before", "time.Time.After", "time.Duration.Seconds", "errors.Is":
+	case "time.Now", "time.Unix", "time.Time.UnixNano", "time.Time.Unix", "time.Since", "time.Time.Sub", "time.Time.Before", "time.Time.After", "time.Duration.Seconds", "errors.Is":
 		fr.eng.dropped["time/opaque"]++
 		return fr.freshResults(s, sig.Results()), true
 	case "encoding/json.Marshal":
